@@ -51,7 +51,12 @@ class Classes:
                      ('RuntimeError', 'Exception'), ('LookupError', 'Exception'), ('KeyError', 'LookupError'), ('AttributeError', 'Exception'),
                      ('TypeError', 'Exception'), ('CancelledError', 'BaseException'), ('StopAsyncIteration', 'Exception'),
                      ('OSError', 'Exception'), ('ProcessLookupError', 'OSError'), ('TimeoutError', 'Exception'),
-                     ('KeyboardInterrupt', 'BaseException'), ('SystemExit', 'BaseException')]:
+                     ('KeyboardInterrupt', 'BaseException'), ('SystemExit', 'BaseException'), ('GeneratorExit', 'BaseException'), ('ArithmeticError', 'Exception'),
+                     ('ZeroDivisionError', 'ArithmeticError'), ('OverflowError', 'ArithmeticError'), ('IndexError', 'LookupError'), ('AssertionError', 'Exception'),
+                     ('NotImplementedError', 'RuntimeError'), ('RecursionError', 'RuntimeError'), ('ConnectionError', 'OSError'), ('PermissionError', 'OSError'),
+                     ('FileNotFoundError', 'OSError'), ('ChildProcessError', 'OSError'), ('InterruptedError', 'OSError'), ('ImportError', 'Exception'),
+                     ('ModuleNotFoundError', 'ImportError'), ('StopIteration', 'Exception'), ('UnicodeError', 'ValueError'), ('UnicodeDecodeError', 'UnicodeError'),
+                     ('QueueFull', 'Exception'), ('QueueEmpty', 'Exception'), ('Error', 'Exception')]:
             s.add(n, p)
     def add(s, n, p):
         if n in s.ids: return
@@ -70,6 +75,25 @@ class Classes:
             if k == i: return n
         return None
 CLS = Classes()
+def register_repo_classes(src):
+    """closed world = the builtin classes above + every class of the repository that derives (transitively) from a registered exception class
+    (taskiq/exceptions.py first). Done once, BEFORE any formula mentions 'any subclass of X', so an `except NewError` clause or a `raise NewError`
+    introduced by a change is inside the lattice from the start."""
+    import glob
+    files = [os.path.join(REPO, 'taskiq', 'exceptions.py')] + sorted(glob.glob(os.path.join(REPO, 'taskiq', '**', '*.py'), recursive=True))
+    defs = []
+    for f in files:
+        try: tree = ast.parse(open(f).read())
+        except Exception: continue
+        for n in ast.walk(tree):
+            if isinstance(n, ast.ClassDef) and n.bases: defs.append((n.name, [ast.unparse(b).split('.')[-1].split('[')[0] for b in n.bases]))
+    changed = True
+    while changed:
+        changed = False
+        for name, bases in defs:
+            if name in CLS.ids: continue
+            exc_bases = [b for b in bases if b in CLS.ids and CLS.is_sub(b, 'BaseException')]
+            if exc_bases: CLS.add(name, exc_bases[0]); changed = True
 
 
 # ---- python-side wrappers for values whose *kind* is known statically
@@ -131,9 +155,14 @@ def sync_or_async(ex, st, flag, eff, k, K):
 
 # ------------------------------------------------------------------ obligations
 class Obl:
-    __slots__ = ('name', 'props', 'hyps', 'goal', 'witness', 'kind', 'replay')
-    def __init__(s, name, props, hyps, goal, witness=None, kind='goal', replay=None):
-        s.name = name; s.props = tuple(props); s.hyps = hyps; s.goal = goal; s.witness = witness or {}; s.kind = kind; s.replay = replay
+    __slots__ = ('name', 'props', 'hyps', 'goal', 'witness', 'kind', 'replay', 'approx')
+    def __init__(s, name, props, hyps, goal, witness=None, kind='goal', replay=None, approx=()):
+        s.name = name; s.props = tuple(props); s.hyps = hyps; s.goal = goal; s.witness = witness or {}; s.kind = kind; s.replay = replay; s.approx = tuple(approx)
+def approx(st, reason):
+    """the path now depends on an OVER-APPROXIMATION of code the contracts do not describe (e.g. an unconstrained boolean for a membership test in
+    bookkeeping the unit knows nothing about). Proofs on such a path stay sound; a REFUTATION on it may be spurious, so it is reported as
+    undecided (with the reason) and left to the native drivers - never as a violation."""
+    st.ghost = dict(st.ghost); st.ghost['__approx'] = tuple(st.ghost.get('__approx', ())) + (reason,)
 OBL = []
 DEFAULT_PROPS = []          # set by the unit
 DEFAULT_REPLAY = {}         # {'replay': {'driver': name}} set by the unit runner from the spec's REPLAY
@@ -146,7 +175,7 @@ def oblige(st, name, goal, props=None, witness=None, kind='goal', replay=None):
     if isinstance(goal, bool): goal = BoolVal(goal)
     w = dict(st.ghost.get('__witness', {})) if isinstance(st.ghost.get('__witness'), dict) else {}
     if witness: w.update(witness)
-    OBL.append(Obl(name, props, list(st.pc) + list(st.facts), goal, w, kind, replay if replay is not None else DEFAULT_REPLAY.get('replay')))
+    OBL.append(Obl(name, props, list(st.pc) + list(st.facts), goal, w, kind, replay if replay is not None else DEFAULT_REPLAY.get('replay'), approx=st.ghost.get('__approx', ())))
 def reach(st, name, props=None, witness=None, replay=None):
     """vacuity guard: the path reaching this point must be satisfiable (recorded as a must-fail obligation)."""
     oblige(st, name, BoolVal(False), props=props or list(DEFAULT_PROPS), kind='mustfail', witness=witness, replay=replay)
@@ -188,6 +217,7 @@ class Exec:
         self.module_funcs = module_funcs or {}
         self.npaths = 0
         self.unmodelled = set()
+        self.method_names = {pat[2:] for pat in handlers if pat.startswith('*.') and pat[2:].isidentifier()}          # `x.ack` read without a call is a bound method (never None), not a data field
     # ---------- helpers
     def feasible(self, st):
         s = Solver(); s.set('timeout', 2000); s.add(*st.pc); return s.check() != unsat
@@ -344,10 +374,10 @@ class Exec:
             return res if isinstance(op, ast.In) else Not(res)
         raise Unsupported("comparison operator")
     def ev_Compare(self, e, st, k, K):
-        if len(e.ops) != 1: raise Unsupported("chained comparison " + ast.unparse(e))
-        def got(st2, vs):
-            return k(st2, PyBool(self.compare(e.ops[0], vs[0], vs[1], st2)))
-        return self.ev_list([e.left, e.comparators[0]], st, got, K)
+        def got(st2, vs):          # a < b < c  ==  a < b and b < c (operands evaluated once, left to right; they are side-effect free in the subset)
+            cs = [self.compare(op, vs[i], vs[i + 1], st2) for i, op in enumerate(e.ops)]
+            return k(st2, PyBool(cs[0] if len(cs) == 1 else And(*cs)))
+        return self.ev_list([e.left] + list(e.comparators), st, got, K)
     def ev_Subscript(self, e, st, k, K):
         def got(st2, vs):
             base, idx = vs
@@ -359,6 +389,8 @@ class Exec:
                 return k(st2, st2.heap.dval[base.addr][to_val(idx)])
             if isinstance(base, PyTuple) and isinstance(idx, int):
                 return k(st2, base.items[idx])
+            if is_expr(base) and base.sort() == Val and not isinstance(idx, (PyTuple, PyCallable)):          # an object the contracts say nothing about: read through the dict view of its address
+                return k(st2, st2.heap.dval[Val.a(base)][to_val(idx)])
             raise Unsupported("subscript on " + repr(base))
         return self.ev_list([e.value, e.slice], st, got, K)
     def ev_Await(self, e, st, k, K):
@@ -380,6 +412,16 @@ class Exec:
                     return h(self, st3, e, recv, args, kwargs, k, K)
                 return self.ev_list([x.value for x in e.keywords], st2, with_kw, K)
             return self.ev_list(e.args, st1, with_args, K)
+        # a local that holds a bound method / function taken earlier (`ack = message.ack; ...; ack()`): the call is the call of what it denotes
+        if isinstance(e.func, ast.Name) and isinstance(st.env.get(e.func.id), PyCallable) and e.func.id not in self.handlers:
+            alias = st.env[e.func.id]; name = alias.name
+            return with_recv(st, alias.self_)
+        if isinstance(e.func, ast.Name) and is_expr(st.env.get(e.func.id)) and e.func.id not in self.handlers:
+            v = st.env[e.func.id]          # `cb = obj.method` read as a heap field: fld_method[addr(obj)]; calling it is calling obj.method
+            if v.decl().kind() == Z3_OP_SELECT and is_const(v.arg(0)) and v.arg(0).decl().name().startswith('fld_'):
+                attr = v.arg(0).decl().name()[4:].split('!')[0]; attr = re.sub(r'_(h|a)\d+$', '', attr)
+                name = e.func.id + '.' + attr
+                return with_recv(st, Val.ref(v.arg(1)))
         # evaluate the receiver of a method call when it is a program value (local / attribute chain rooted at a local)
         if isinstance(e.func, ast.Attribute):
             root = e.func.value
@@ -395,7 +437,28 @@ class Exec:
         for pat, h in self.handlers.items():
             if pat.startswith('*.') and name.endswith(pat[1:]): return h
             if pat.endswith('.*') and name.startswith(pat[:-1]): return h
-        return self.inline_handler(name)
+        return self.inline_handler(name) or self.pure_fallback(name)
+    # ---------- side-effect free builtins / stdlib functions without a contract: the result is an UNCONSTRAINED value and the path is marked as
+    # depending on an over-approximation (core.approx): proofs stay sound, a refutation that needs the unknown value is reported as undecided.
+    # int()/float() of a value that already is an int is the value itself. Functions that can raise get an exception edge of their documented class.
+    PURE = {'divmod': 'ZeroDivisionError', 'abs': None, 'min': None, 'max': None, 'round': None, 'sum': None, 'sorted': None, 'repr': None, 'hash': None, 'id': None, 'bool': None,
+            'tuple': None, 'frozenset': None, 'type': None, 'callable': None, 'hasattr': None, 'math.isnan': None, 'math.isinf': None, 'math.isfinite': None, 'math.ceil': None,
+            'math.floor': None, 'isinstance': None, 'issubclass': None, 'int': 'ValueError', 'float': 'ValueError', 'str': None, 'time.time': None, 'time.monotonic': None,
+            'time.perf_counter': None, 'perf_counter': None, 'monotonic': None, 'os.getpid': None, 'getattr': 'AttributeError', 'len': None, 'any': None, 'all': None,
+            'enumerate': None, 'zip': None, 'reversed': None, 'iter': None, 'range': None, 'list': None, 'dict': None, 'set': None, 'Counter': None, 'collections.Counter': None,
+            'defaultdict': None, 'collections.defaultdict': None, 'OrderedDict': None, 'collections.OrderedDict': None, 'deque': None, 'collections.deque': None}
+    def pure_fallback(self, name):
+        if name not in self.PURE or getattr(self, 'no_pure_fallback', False): return None
+        exc_cls = self.PURE[name]
+        def h(ex, st, e, recv, args, kw, k, K):
+            if name in ('int', 'float') and len(args) == 1 and not kw and isinstance(args[0], PyInt): return k(st, args[0])
+            if name in ('int', 'float') and len(args) == 1 and not kw and isinstance(args[0], int) and not isinstance(args[0], bool): return k(st, args[0])
+            approx(st, f"result of {name}(...) is not modelled (unconstrained value)")
+            if exc_cls:
+                f = st.fork(); K['exc'](f, new_exc(f, exc_cls))
+            r = fresh(name.replace('.', '_') + '_result')
+            return k(st, PyBool(fresh(name.replace('.', '_') + '_result', BoolSort())) if name in ('isinstance', 'issubclass', 'callable', 'hasattr', 'bool', 'any', 'all', 'math.isnan', 'math.isinf', 'math.isfinite') else r)
+        return h
     # ---------- calls into /repo that have no contract are INLINED (DESIGN 2.3): `self._helper(...)` of the same class and module-level functions of
     # the same file are executed at the call site with their REAL body (depth <= 3, no recursion), so extracting a helper is a harmless refactor
     inline_scope = None          # (Source, rel path, class name or None), set by the unit
@@ -470,6 +533,10 @@ class Exec:
                     kx = to_val(idx)
                     h.dval = Store(h.dval, base.addr, Store(h.dval[base.addr], kx, to_val(v)))
                     h.dhas = Store(h.dhas, base.addr, Store(h.dhas[base.addr], kx, True))
+                elif is_expr(base) and base.sort() == Val and not isinstance(idx, (PyTuple, PyCallable)):
+                    # bookkeeping object without a contract (a counter dict, a cache): the store goes to the dict view of its address; nothing says that address
+                    # differs from the collections the contracts talk about: the store is assumed not to alias them (frame), and the path is marked as approximation
+                    approx(st2, "store through " + ast.unparse(tgt) + ": an object without a contract, assumed not to alias any collection the contracts talk about (no effect on the modelled heap)")
                 else: raise Unsupported("store through subscript on " + repr(base))
                 return k(st2)
             return self.ev_list([tgt.value, tgt.slice], st, got, K)
@@ -628,8 +695,10 @@ def merge_states(states):
             if not all(kx in s.env for s in states): continue        # defined on some branches only: dropped (a later use is Unsupported, not unsound)
             m.env[kx] = _merge_vals(conds, [s.env[kx] for s in states])
         gk = set().union(*[set(s.ghost) for s in states])
-        if not all(set(s.ghost) == gk for s in states): raise MergeFail()
-        m.ghost = {kx: _merge_vals(conds, [s.ghost[kx] for s in states]) for kx in gk}
+        if not all(set(s.ghost) | {'__approx'} == gk | {'__approx'} for s in states): raise MergeFail()
+        m.ghost = {kx: _merge_vals(conds, [s.ghost[kx] for s in states]) for kx in gk if kx != '__approx'}
+        ap = tuple(sorted({r_ for s in states for r_ in s.ghost.get('__approx', ())}))
+        if ap: m.ghost['__approx'] = ap
         h = states[0].heap.copy()
         for attr in ('llen', 'litem', 'dhas', 'dval', 'cls_of', 'next'):
             setattr(h, attr, _merge_vals(conds, [getattr(s.heap, attr) for s in states]))
@@ -804,6 +873,8 @@ def discharge(timeout=10000, procs=16, verbose=False):
         else:
             d['status'] = {'unsat': 'proved', 'sat': 'refuted', 'sat(candidate)': 'refuted', 'unknown': 'undecided'}[r]
             if r == 'sat(candidate)': d['candidate'] = True
+            if d['status'] == 'refuted' and ob.approx:
+                d['status'] = 'undecided'; d['approx'] = list(ob.approx); d['note'] = 'refuted only on a path that depends on an over-approximation of code without a contract: ' + '; '.join(ob.approx)
         if ob.kind == 'mustfail' and d['status'] == 'reachable' and ob.witness and os.environ.get('PYVC_PATH_MODELS') == '1':
             s = Solver(); s.set('timeout', 5000); s.add(*[h for h in ob.hyps if not is_quantifier(h)])
             if s.check() == sat:
